@@ -1823,6 +1823,117 @@ func (s *Scanner) collect() {
 	}
 }
 
+// GlobalAlias: a package-level variable of struct (or array) type that contains maps, slices or
+// pointers to module types is copied BY VALUE; the copy shares that storage with the variable and with
+// every other copy, whatever per-instance lock later guards it (config.DefaultConfig.Banned).
+type GlobalAlias struct {
+	Var string `json:"var"`
+	Fn  string `json:"fn"`
+	Pos string `json:"pos"`
+}
+
+func (s *Scanner) globalAliases() []GlobalAlias {
+	var out []GlobalAlias
+	seen := map[string]bool{}
+	for _, fn := range s.fns {
+		if fn.Body == nil || fn.enclosingLit != nil {
+			continue // literals are visited as part of their enclosing function
+		}
+		info := fn.Pkg.TypesInfo
+		var stack []ast.Node
+		ast.Inspect(fn.Body, func(n ast.Node) bool {
+			if n == nil {
+				stack = stack[:len(stack)-1]
+				return false
+			}
+			stack = append(stack, n)
+			var id *ast.Ident
+			var whole ast.Node = n
+			switch x := n.(type) {
+			case *ast.Ident:
+				id = x
+			case *ast.SelectorExpr:
+				if pid, ok := x.X.(*ast.Ident); ok {
+					if _, isPkg := info.Uses[pid].(*types.PkgName); isPkg {
+						id = x.Sel
+					}
+				}
+			}
+			if id == nil {
+				return true
+			}
+			v, ok := info.Uses[id].(*types.Var)
+			if !ok || v.Pkg() == nil || v.Parent() != v.Pkg().Scope() || v.IsField() {
+				return true
+			}
+			if !(v.Pkg().Path() == modPath || strings.HasPrefix(v.Pkg().Path(), modPath+"/")) {
+				return true
+			}
+			switch v.Type().Underlying().(type) {
+			case *types.Struct, *types.Array:
+			default:
+				return true
+			}
+			if !sharesRefs(v.Type(), map[types.Type]bool{}) {
+				return true
+			}
+			// the parent decides: pkg.Var.f, pkg.Var[i], &pkg.Var and assignment targets are not copies
+			pi := len(stack) - 2
+			if _, isSel := whole.(*ast.Ident); isSel && pi >= 0 {
+				if ps, ok := stack[pi].(*ast.SelectorExpr); ok && ps.Sel == id {
+					return true // the Sel half of pkg.Var: handled at the SelectorExpr node
+				}
+			}
+			for pi >= 0 {
+				if _, ok := stack[pi].(*ast.ParenExpr); !ok {
+					break
+				}
+				pi--
+			}
+			if pi >= 0 {
+				switch p := stack[pi].(type) {
+				case *ast.SelectorExpr:
+					if p.X == whole || stripParens(p.X) == whole {
+						return true
+					}
+				case *ast.IndexExpr:
+					if stripParens(p.X) == whole {
+						return true
+					}
+				case *ast.UnaryExpr:
+					if p.Op == token.AND {
+						return true
+					}
+				case *ast.AssignStmt:
+					for _, l := range p.Lhs {
+						if stripParens(l) == whole {
+							return true
+						}
+					}
+				case *ast.RangeStmt:
+					if stripParens(p.X) == whole {
+						return true
+					}
+				}
+			}
+			name := v.Pkg().Name() + "." + v.Name()
+			key := name + "|" + fn.ID
+			if !seen[key] {
+				seen[key] = true
+				out = append(out, GlobalAlias{name, fn.ID, s.pos(whole.Pos())})
+			}
+			return true
+		})
+	}
+	sort.Slice(out, func(i, j int) bool {
+		if out[i].Var != out[j].Var {
+			return out[i].Var < out[j].Var
+		}
+		return out[i].Fn < out[j].Fn
+	})
+	return out
+}
+
 func (s *Scanner) walkAll() {
 	for i := 0; i < len(s.fns); i++ { // s.fns grows while function literals are discovered
 		fn := s.fns[i]
@@ -2098,7 +2209,7 @@ func (s *Scanner) output(outJSON, outV string) {
 	if outJSON != "" {
 		out := map[string]interface{}{
 			"repo": s.root, "entries": list, "exempt": exempt, "unrecognised": s.notes, "functions": fninfo,
-			"declared_fields": fields, "n_functions": len(s.fns),
+			"declared_fields": fields, "n_functions": len(s.fns), "global_alias_sites": s.globalAliases(),
 		}
 		b, _ := json.MarshalIndent(out, "", " ")
 		if err := os.WriteFile(outJSON, b, 0644); err != nil {
@@ -2137,6 +2248,16 @@ func (s *Scanner) output(outJSON, outV string) {
 				sep = ""
 			}
 			fmt.Fprintf(&sb, "  %s%s\n", coqStr(f), sep)
+		}
+		sb.WriteString("].\n\n(* by-value copies of package-level struct variables that contain maps/slices: (variable, function) *)\n")
+		sb.WriteString("Definition gen_global_alias_sites : list (string * string) := [\n")
+		ga := s.globalAliases()
+		for i, g := range ga {
+			sep := ";"
+			if i == len(ga)-1 {
+				sep = ""
+			}
+			fmt.Fprintf(&sb, "  (%s, %s)%s\n", coqStr(g.Var), coqStr(g.Fn), sep)
 		}
 		sb.WriteString("].\n")
 		if err := os.WriteFile(outV, []byte(sb.String()), 0644); err != nil {
